@@ -611,11 +611,13 @@ class RecordContextMatcher:
                 result = AST_OPERATORS[type(node.op)](result, value)
             return result
         elif isinstance(node, ast.BinOp):
+            # an operator outside the language is rejected whatever its operands are
+            op = AST_OPERATORS[type(node.op)]
             left = self.eval(node.left)
             right = self.eval(node.right)
             if isinstance(left, NoneObject) or isinstance(right, NoneObject):
                 return False
-            return AST_OPERATORS[type(node.op)](left, right)
+            return op(left, right)
         elif isinstance(node, ast.UnaryOp):
             return AST_OPERATORS[type(node.op)](self.eval(node.operand))
         elif isinstance(node, ast.Compare):
